@@ -420,3 +420,19 @@ func SetTaskCtx(c *OpCtx) {
 	}
 	seqCur = c
 }
+
+// CurTask returns the id (1-based) of the task running on the calling goroutine, 0 outside a
+// scheduled run.
+//
+//go:norace
+func CurTask() int {
+	if s := activeSched; s != nil {
+		return int(s.curr)
+	}
+	return 0
+}
+
+// NextSeq returns the next global event sequence number (the simulator's logical clock).
+//
+//go:norace
+func NextSeq() int64 { return nextSeq() }
